@@ -299,7 +299,62 @@ func freshString(v ssa.Value, depth int) bool {
 		}
 		return freshString(x.X, depth+1)
 	case *ssa.Call:
-		return calleeIs(&x.Call, "strings.Clone")
+		if calleeIs(&x.Call, "strings.Clone") {
+			return true
+		}
+		// a helper all of whose returns yield a fresh string (its parameters read as the
+		// arguments of this call)
+		if sc := x.Call.StaticCallee(); sc != nil && isHelper(sc) {
+			o := originOf(sc)
+			saved := dynEnv
+			ne := &venv{bind: map[*ssa.Parameter]ssa.Value{}, outer: dynEnv}
+			for j, par := range o.Params {
+				if j < len(x.Call.Args) {
+					ne.bind[par] = x.Call.Args[j]
+				}
+			}
+			dynEnv = ne
+			defer func() { dynEnv = saved }()
+			rets := returnsOf(o)
+			for _, ret := range rets {
+				if len(ret.Results) != 1 || !freshString(ret.Results[0], depth+1) {
+					return false
+				}
+			}
+			return len(rets) > 0
+		}
+		return false
+	case *ssa.Parameter:
+		if a := paramArg(x); a != nil {
+			saved := dynEnv
+			if dynEnv != nil {
+				dynEnv = dynEnv.outer
+			}
+			defer func() { dynEnv = saved }()
+			return freshString(a, depth+1)
+		}
+		// a helper with several call sites: fresh at every one of them
+		if f := x.Parent(); f != nil && f.Parent() == nil && isHelper(f) && curProg != nil {
+			uniqueCallOf(f)
+			idx := -1
+			for i, q := range f.Params {
+				if q == x {
+					idx = i
+				}
+			}
+			sites := curProg.uniq[originOf(f)]
+			if idx < 0 || len(sites) == 0 {
+				return false
+			}
+			for _, ci := range sites {
+				cc := ci.Common()
+				if cc.IsInvoke() || idx >= len(cc.Args) || !freshString(cc.Args[idx], depth+1) {
+					return false
+				}
+			}
+			return true
+		}
+		return false
 	case *ssa.UnOp:
 		if x.Op != token.MUL {
 			return false
@@ -321,6 +376,11 @@ func freshString(v ssa.Value, depth int) bool {
 				}
 			}
 			return n > 0
+		case *ssa.FieldAddr:
+			// a field of a local struct that is assigned once (item.Key)
+			if nv := norm(x); nv != ssa.Value(x) {
+				return freshString(nv, depth+1)
+			}
 		}
 		return false
 	case *ssa.Phi:
@@ -349,7 +409,7 @@ func ruleAlias(r *Report, kinds ...string) {
 	check := func(name string, fn *ssa.Function) {
 		var bad ssa.Instruction
 		n := 0
-		withClosures(fn, func(f *ssa.Function) {
+		for _, f := range deepFuncs(fn) {
 			allInstrs(f, func(ins ssa.Instruction) {
 				var v ssa.Value
 				switch x := ins.(type) {
@@ -404,7 +464,7 @@ func ruleAlias(r *Report, kinds ...string) {
 					}
 				}
 			})
-		})
+		}
 		if n == 0 {
 			return
 		}
